@@ -12,6 +12,8 @@ Recover(c, f) == [op |-> "recover", c |-> c, f |-> f]
 
 \* one honest broadcast, everybody honest
 P_one4 == [i \in H4 |-> IF i = 0 THEN <<B(1)>> ELSE <<>>]
+\* two broadcasts of one sender, everybody honest
+P_two4 == [i \in H4 |-> IF i = 0 THEN <<B(1), B(2)>> ELSE <<>>]
 \* one honest broadcast, party 3 faulty
 P_one3 == [i \in H3 |-> IF i = 0 THEN <<B(1)>> ELSE <<>>]
 \* two broadcasts of one sender
